@@ -6,9 +6,11 @@ From XV Require Import Lib.Sx Model.Queue.
 Import ListNotations.
 Open Scope Z_scope.
 
-(* what the packet is: Send decides on its Go type (stanza.SMRequest / stanza.SMAnswer, by value
-   or by pointer), SendRaw on the first element of the string ({urn:xmpp:sm:3}r / a) *)
-Inductive pkind := KStanza | KRequest | KAnswer.
+(* what the packet is, for Send (its serialisation) as for SendRaw (the string), by its first element:
+   KStanza: message / presence / iq in jabber:client or without a namespace of its own - what the server counts;
+   KRequest / KAnswer: {urn:xmpp:sm:3}r / a; KOther: anything else (another nonza such as client state
+   indication, an element of a foreign namespace, white space, the empty string, a nil packet) *)
+Inductive pkind := KStanza | KRequest | KAnswer | KOther.
 
 Inductive aop :=
 | ASend (k : pkind) (data : str)    (* Client.Send(packet); data = its serialisation *)
@@ -20,6 +22,11 @@ Inductive aop :=
 | AAckRefused (h : Z) (j : nat)     (* the same, but write number j (from 0) of the retransmission it causes is
                                        refused (the transport fails, or sendWithWriter answers ErrNoSession because
                                        a reconnection has started): SendMissingStz stops there *)
+| AFailedAttempt                   (* a connection attempt on this client that fails (before the features, while TLS is
+                                       negotiated, while the answer to <resume/> is awaited, ...): the session is still
+                                       alive on the server, what is held stays held *)
+| AResumed                         (* a connection attempt on which the server resumes the session (<resumed/>): the queue
+                                       goes on; nothing is written (its h is not read: DESIGN 10.6) *)
 | AEnabled (resume : bool).         (* a new session on which the server enabled stream management
                                        (Session.EnableStreamManagement reading <enabled/>); resume: its resume
                                        attribute reads as true (strconv.ParseBool) *)
@@ -42,7 +49,7 @@ Definition a_send (st : astate) (k : pkind) (data : str) : astate * list witem :
   match k with
   | KStanza => if snd st then ((q_push (fst st) data, true), [WData data]) else (st, [WData data])
   | KRequest => (st, [WRequest])
-  | KAnswer => (st, [WData data])
+  | KAnswer | KOther => (st, [WData data])
   end.
 
 (* a refused write: what was pushed is taken back (UnAckQueue.DropLast, Model/Queue.v); nothing reached the wire *)
@@ -85,6 +92,7 @@ Definition a_step (st : astate) (o : aop) : astate * list witem :=
   | ARefused k d => a_refused st k d
   | AAck h => a_ack st h
   | AAckRefused h j => a_ack_refused st h j
+  | AFailedAttempt | AResumed => (st, [])
   | AEnabled r => a_enabled st r
   end.
 
@@ -120,6 +128,8 @@ Definition sp_step (s : spec) (o : aop) : spec * list witem :=
       else (s, [WData d])   (* written; not a stanza of a session that holds *)
   | ASend KRequest _ | ASendRaw KRequest _ => (s, [WRequest])
   | ASend KAnswer d | ASendRaw KAnswer d => (s, [WData d])
+  | ASend KOther d | ASendRaw KOther d => (s, [WData d])   (* written; the server does not count it either *)
+  | AFailedAttempt | AResumed => (s, [])   (* the same session: sent, delivered and held as before *)
   | ARefused _ _ => (s, [])   (* not sent on the session: neither held nor counted *)
   | AAck h => sp_ack s h
   | AAckRefused h j => let '(s', w) := sp_ack s h in (s', firstn j w)   (* delivered and held as for AAck *)
